@@ -155,19 +155,8 @@ func (Engine) Run(t *tape.Tape, o eng.Opts) *eng.Result {
 			// Next() calls and returns of handlers placed in front of Recovery; Recovery's frame
 			// lives inside the epoch in which the first handler behind it started.
 			epoch, recEpoch := 0, -1
+			firstInner := -1
 			epochAt := make([]int, len(q.Events)+1)
-			// P: the last simulated handler in front of Recovery. Recovery starts when the chain
-			// first advances past P: inside P's first Next(), or right after P returned.
-			pIdx := -1
-			for i := recIdx - 1; i >= 0; i-- {
-				if full[i].HID >= 0 {
-					pIdx = i
-					break
-				}
-			}
-			if pIdx < 0 {
-				recEpoch = 0
-			}
 			for i, e := range q.Events {
 				epochAt[i] = epoch
 				x := idxOf(int(e.H))
@@ -175,13 +164,14 @@ func (Engine) Run(t *tape.Tape, o eng.Opts) *eng.Result {
 				case world.EvNextCall, world.EvNextRet, world.EvNextPanic, world.EvSwallow:
 					if x >= 0 && x < recIdx {
 						epoch++
-						if e.K == world.EvNextCall && x == pIdx && recEpoch < 0 {
-							recEpoch = epoch
-						}
 					}
-				case world.EvExit:
-					if x == pIdx && recEpoch < 0 {
+				case world.EvEnter:
+					// Recovery is invoked the first time the cursor passes it, and the next thing
+					// that happens is the handler behind it starting (or failing to resolve, see
+					// below): the first evidence of activity behind Recovery dates its frame.
+					if x > recIdx && recEpoch < 0 {
 						recEpoch = epoch
+						firstInner = i
 					}
 				}
 			}
@@ -251,6 +241,12 @@ func (Engine) Run(t *tape.Tape, o eng.Opts) *eng.Result {
 					}
 					res.Faults["di-missing"]++
 					panics = append(panics, panicInfo{evIdx: at, chain: missingIdx, kind: "di-missing", statusBefore: st})
+				}
+			}
+			for _, pi := range panics {
+				if pi.kind == "di-missing" && pi.chain > recIdx && pi.evIdx <= len(q.Events) && (firstInner < 0 || pi.evIdx < firstInner) {
+					recEpoch, firstInner = epochAt[pi.evIdx], pi.evIdx
+					break
 				}
 			}
 			if len(panics) == 0 {
